@@ -253,7 +253,21 @@ func runC13(c *Ctx) {
 				}
 				walk(caseBlock)
 				mapRange, replySend, drainRecv := false, false, false
+				// the stop arm's own blocks plus the bodies of the package helpers it calls (the arm may be a method call)
+				scan := []*ssa.BasicBlock{}
 				for b := range region {
+					scan = append(scan, b)
+					for _, ins := range b.Instrs {
+						if call, isC := ins.(*ssa.Call); isC {
+							if sc := call.Call.StaticCallee(); sc != nil && c.P.IsRepoFunc(sc) && pkgOf(sc) == pkgOf(writeFn) {
+								for _, hf := range c.familyOf(sc) {
+									scan = append(scan, hf.Blocks...)
+								}
+							}
+						}
+					}
+				}
+				for _, b := range scan {
 					for _, ins := range b.Instrs {
 						switch v := ins.(type) {
 						case *ssa.Range:
